@@ -150,6 +150,7 @@ def run_pool(prop_name, mem, chunk_iter, merge, total):
 
     hard_timeout = getattr(importlib.import_module("pdpmc.props." + prop_name), "CASE_TIMEOUT", 120) + 10
     pending = collections.deque()  # tasks to retry (single cases)
+    died_once = set()
     it = iter(chunk_iter)
     exhausted = False
 
@@ -196,6 +197,11 @@ def run_pool(prop_name, mem, chunk_iter, merge, total):
                 if len(cases) > 1:
                     for i, case in enumerate(cases):
                         pending.append((start + i, [case], tier))
+                elif p.exitcode != -9 and start not in died_once:
+                    # not the deadline kill: once more in a fresh worker - what kills its worker by itself does so again, a
+                    # transient failure of the machine (memory pressure from other jobs, a full scratch disk) does not
+                    died_once.add(start)
+                    pending.append(t)
                 else:
                     r = R()
                     r.index = start
